@@ -124,6 +124,8 @@ class Check:
         self.checker_cmd = "cd lean && lake build %s && lake env lean <audit: #print axioms of every theorem in %s>" % (module, module)
         self.extra["lake_build_s"] = round(dt, 1)
         if not ok:
+            # the executable driver must exist even when a property module no longer checks
+            buildlib.lake_build(["driver"])
             errs = [l for l in log.splitlines() if "error" in l][:20]
             for t in thms or ["<module %s>" % module]:
                 self.obligations.append((t, False, "lake build failed"))
